@@ -503,6 +503,7 @@ def rule_limbs(ctx, R):
     L = LimbBody(fb, B + "add_core", {1: "LHS", 2: "RHS"})
     if R.anchor(L.b is not None and L.V is not None, "add_core", "BigNum::add_core and its result vector"):
         _zeroed(L, R, "add_core")
+        _whole(L, R, "add_core")
         R.analyse(L.b.name)
         inner = sorted(innermost(L.heads).items(), key=lambda kv: _pos(L.b, kv[0]))
         if R.anchor(len(inner) == 2, "add_core:loops", "the two digit loops of add_core (found %d)" % len(inner)):
@@ -526,6 +527,7 @@ def rule_limbs(ctx, R):
     L = LimbBody(fb, B + "sub_core", {1: "LHS", 2: "RHS"})
     if R.anchor(L.b is not None and L.V is not None, "sub_core", "BigNum::sub_core and its result vector"):
         _zeroed(L, R, "sub_core")
+        _whole(L, R, "sub_core")
         R.analyse(L.b.name)
         inner = sorted(innermost(L.heads).items(), key=lambda kv: _pos(L.b, kv[0]))
         if R.anchor(len(inner) == 2, "sub_core:loops", "the two digit loops of sub_core (found %d)" % len(inner)):
@@ -549,6 +551,7 @@ def rule_limbs(ctx, R):
     L = LimbBody(fb, B + "mult_core", {1: "LHS", 2: "RHS"})
     if R.anchor(L.b is not None and L.V is not None, "mult_core", "BigNum::mult_core and its accumulator vector"):
         _zeroed(L, R, "mult_core")
+        _whole(L, R, "mult_core")
         R.analyse(L.b.name)
         inner = sorted(innermost(L.heads).items(), key=lambda kv: _pos(L.b, kv[0]))
         if R.anchor(len(inner) == 1, "mult_core:loops", "the inner product loop of mult_core (found %d innermost loops)" % len(inner)):
@@ -666,11 +669,19 @@ def _sub_selection(L, R):
     want = {(("RHS", "LHS", "K1"), ("BR[BigNum::less_core(LHS,RHS)]=1",)), (("LHS", "RHS", "K0"), ("BR[BigNum::less_core(LHS,RHS)]=0",))}
     R.check(got == want, "sub_core:selection", "sub_core subtracts the smaller magnitude from the larger (a, b, swapped) = (rhs, lhs, true) iff |lhs| < |rhs|: %s" % sorted(got), b.span)
     iters = sorted((_pos(b, bi), roles.of_operand(t["args"][0], bi)) for bi, t in b.calls() if callee_name(t["f"], fb) == "core::iter::traits::collect::IntoIterator::into_iter")
-    ok = len(iters) == 2 and iters[0][1].startswith("Range::Range{K0,[T]::len(PHI(") and iters[0][1].endswith(".1)}") and iters[1][1].startswith("Range::Range{[T]::len(PHI(") and iters[1][1].endswith(".0)}")
+    SEL = "PHI(tuple{LHS,RHS,K0}|tuple{RHS,LHS,K1})"
+    ok = len(iters) == 2 and iters[0][1] == "Range::Range{K0,[T]::len(%s.1)}" % SEL and iters[1][1] == "Range::Range{[T]::len(%s.1),[T]::len(%s.0)}" % (SEL, SEL)
     R.check(ok, "sub_core:ranges", "sub_core: digits 0..len(b) are subtracted pairwise, digits len(b)..len(a) only propagate the borrow: %s" % [x[1][:90] for x in iters], b.span)
+    vlen = roles.of_origin(L.Vinit[1])
+    R.check(vlen in ("(cmp::max([T]::len(LHS),[T]::len(RHS)) Add K1)", "(cmp::max([T]::len(RHS),[T]::len(LHS)) Add K1)", "cmp::max([T]::len(LHS),[T]::len(RHS))", "cmp::max([T]::len(RHS),[T]::len(LHS))"), "sub_core:length", "sub_core: the result has a cell for every digit of the longer operand: %s" % vlen, b.span)
     # returns (v, swapped)
     rets = [roles.of_origin(roles.org.of_rvalue(s["r"], bi, si)) for bi, blk in enumerate(b.blocks) for si, s in enumerate(blk["stmts"]) if s["k"] == "assign" and s["p"]["l"] == 0 and not s["p"]["proj"] and not blk["cleanup"]]
     R.check(len(rets) == 1 and rets[0].startswith("tuple{vec::from_elem(K0,") and rets[0].endswith(".2}"), "sub_core:returns", "sub_core returns the difference and the swapped flag: %s" % [r[:60] + "..." + r[-30:] for r in rets], b.span)
+
+
+def _whole(L, R, nm):
+    from .util import check_whole_loops
+    check_whole_loops(R, "%s:loops:whole" % nm, L.b, L.cfg, "%s visits every limb position of its ranges" % nm)
 
 
 def _zeroed(L, R, nm):
@@ -705,6 +716,15 @@ def _mult_structure(L, R):
                         o_ = uncast(L.org0.of_operand(st["r"][side], bi, si))
                         if mentions(o_, 1) and not mentions(o_, 2):
                             facs.add(o_)
+        # the factors of a partial product: one digit of lhs chosen by the row loop alone, one digit of rhs chosen by the column loop alone
+        prods = []
+        for bi in LB[inner]:
+            for si, st in enumerate(b.blocks[bi]["stmts"]):
+                if st["k"] == "assign" and st["r"]["k"] == "bin" and st["r"]["op"] in ("Mul", "MulWithOverflow"):
+                    ops_ = [uncast(L.org0.of_operand(st["r"][side], bi, si)) for side in ("l", "r")]
+                    if any(mentions(o_, 1) or mentions(o_, 2) for o_ in ops_):
+                        prods.append(sorted(("lhs" if mentions(o_, 1) else "") + ("rhs" if mentions(o_, 2) else "") for o_ in ops_))
+        R.check(prods == [["lhs", "rhs"]], "mult_core:factors", "a partial product multiplies a digit of lhs addressed by the row index with a digit of rhs addressed by the column index (factors depend on: %s)" % prods, b.blocks[inner]["term"]["span"]["at"])
         skips, odd = [], []
         for gb in LB[outer] - LB[inner]:
             tt = b.blocks[gb]["term"]
@@ -791,6 +811,7 @@ def rule_divless(ctx, R):
     L = LimbBody(fb, B + "div_core", {1: "LHS", 2: "RHS"})
     if R.anchor(L.b is not None and L.V is not None, "div_core", "BigNum::div_core and its quotient vector"):
         _zeroed(L, R, "div_core")
+        _whole(L, R, "div_core")
         b = L.b
         R.analyse(b.name)
         roles = Roles(b, fb, param_roles={1: "LHS", 2: "RHS"}, overrides={L.V: "Q"})
